@@ -432,20 +432,32 @@ func (fc *FuncCtx) fieldOf(env *Env, v Val, name string) Val {
 		specFail("field %s of a non-struct", name)
 	}
 	if st, ok := derefStruct(v.Ty); ok {
-		i, ok := fc.S.FieldByName(st, name)
+		path, tys, ok := fc.S.PromotedPath(st, name)
 		if !ok {
 			specFail("no field %s in %s", name, st)
 		}
-		hk := fc.heapComp(st, i)
-		return Val{T: "(select " + fc.get(env.st, hk) + " " + v.T + ")", Ty: st.Underlying().(*types.Struct).Field(i).Type()}
+		hk := fc.heapComp(st, path[0])
+		t := "(select " + fc.get(env.st, hk) + " " + v.T + ")"
+		ft := st.Underlying().(*types.Struct).Field(path[0]).Type()
+		if len(path) == 2 {
+			sel, f := fc.S.Field(tys[1], path[1])
+			t = "(" + sel + " " + t + ")"
+			ft = f.Ty
+		}
+		return Val{T: t, Ty: ft}
 	}
 	if _, ok := v.Ty.Underlying().(*types.Struct); ok {
-		i, ok := fc.S.FieldByName(v.Ty, name)
+		path, tys, ok := fc.S.PromotedPath(v.Ty, name)
 		if !ok {
 			specFail("no field %s in %s", name, v.Ty)
 		}
-		sel, f := fc.S.Field(v.Ty, i)
-		return Val{T: "(" + sel + " " + v.T + ")", Ty: f.Ty}
+		t, ft := v.T, types.Type(nil)
+		for k, i := range path {
+			sel, f := fc.S.Field(tys[k], i)
+			t = "(" + sel + " " + t + ")"
+			ft = f.Ty
+		}
+		return Val{T: t, Ty: ft}
 	}
 	specFail("field %s of %s", name, v.Ty)
 	return Val{}
